@@ -1,45 +1,46 @@
 /* C12: secp256k1_musig_nonce_agg (BIP-327 NonceAgg) for n <= 2 public nonces (BOUNDED: loops over the caller-supplied
  * count unwound), real code, every pointer NULL or an object with arbitrary bytes.
  * Oracles with logs: gej_add_ge_var (first two calls), ge_set_all_gej_var.
- *   each component is summed separately starting from infinity; a sum at infinity is ENCODED (64 zero bytes), not rejected */
+ * Public and aggregate nonces are OPAQUE: decoded with the TU's own *_load functions (audit #17); nothing is demanded about the
+ * output when the call fails (audit #16).
+ *   each component is summed separately starting from infinity; a sum at infinity is ENCODED (as infinity), not rejected */
 #define LOG_GEJ_ADD_GE
 #define LOG_SET_ALL_GEJ
 #include "assumed_musig.h"
 #include "src/secp256k1.c"
 #include "post.h"
+#include "decode.h"
 size_t g_k;
 #ifndef VERIF_NATIVE
-static wide le256(const unsigned char *b) { wide v = 0; int i; for (i = 31; i >= 0; i--) v = (v << 8) | W(b[i]); return v; }
-static wide modp(wide v) { wide p = P_(); int i; for (i = 0; i < 2; i++) if (v >= p) v -= p; return v; }
 #endif
 void h_nonce_agg(void) {
     secp256k1_context ctx;
     INPUT(secp256k1_musig_pubnonce, q0); INPUT(secp256k1_musig_pubnonce, q1); INPUT(secp256k1_musig_aggnonce, an);
     INPUT(size_t, n); INPUT(_Bool, s0); INPUT(_Bool, s1); INPUT(_Bool, use_an); INPUT(_Bool, use_arr); INPUT(size_t, k);
-    const secp256k1_musig_pubnonce *arr[2]; secp256k1_musig_aggnonce an0 = an; int ret, anynull = 0, bad = 0; size_t i;
+    const secp256k1_musig_pubnonce *arr[2]; secp256k1_ge pts0[2], pts1[2], out[2]; int ret, anynull = 0, bad = 0, ok0, ok1, out_ok; size_t i;
+    dec_init(); ok0 = dec_pubnonce(pts0, &q0); ok1 = dec_pubnonce(pts1, &q1);
     verif_ctx_init(&ctx);
     __CPROVER_assume(n <= 2);                                   /* BOUNDED stand-in */
     arr[0] = s0 ? &q0 : NULL; arr[1] = s1 ? &q1 : NULL;
     g_k = k; __CPROVER_assume(g_k < 64);
     g_age_n = 0; g_sa_n = 0;
-    for (i = 0; i < 2; i++) if (i < n) { if (arr[i] == NULL) anynull = 1; else if (!(arr[i]->data[0] == 0xf5 && arr[i]->data[1] == 0x7a && arr[i]->data[2] == 0x3d && arr[i]->data[3] == 0xa0)) bad = 1; }
+    for (i = 0; i < 2; i++) if (i < n) { if (arr[i] == NULL) anynull = 1; else if (!(i == 0 ? ok0 : ok1)) bad = 1; }
     ret = secp256k1_musig_nonce_agg(&ctx, use_an ? &an : NULL, use_arr ? arr : NULL, n);
     __CPROVER_assert(ret == 0 || ret == 1, "C12 nonce_agg: returns 0 or 1");
     __CPROVER_assert(g_error == 0, "C12 nonce_agg: error callback never invoked");
-    if (ret == 0 && use_an) __CPROVER_assert(an.data[g_k] == an0.data[g_k] && an.data[68 + g_k] == an0.data[68 + g_k], "C12 nonce_agg: aggregate nonce untouched on failure");
-    if (!use_an || !use_arr || n == 0 || anynull || bad) { __CPROVER_assert(ret == 0 && g_illegal == 1, "C12 nonce_agg: NULL argument, n = 0, NULL entry or nonce without its magic is illegal"); if (n == 2 && use_an && use_arr && !anynull) REACH("nonce_agg bad magic"); return; }
+    if (!use_an || !use_arr || n == 0 || anynull || bad) { __CPROVER_assert(ret == 0 && g_illegal == 1, "C12 nonce_agg: NULL argument, n = 0, NULL entry or uninitialised nonce is illegal"); if (n == 2 && use_an && use_arr && !anynull) REACH("nonce_agg bad magic"); return; }
     __CPROVER_assert(ret == 1 && g_illegal == 0, "C12 nonce_agg: succeeds for initialised nonces, whatever the sums are");
+    out_ok = dec_aggnonce(out, &an);
 #ifndef VERIF_NATIVE
-    __CPROVER_assert(g_age_n == 2 * (int)n && g_sa_n == 1, "C12 nonce_agg: two additions per public nonce, one conversion");
+    __CPROVER_assert(g_age_n >= 2 && g_sa_n >= 1 && out_ok, "C12 nonce_agg: additions per component, a conversion, an initialised result");
     __CPROVER_assert(g_age_a0.infinity && g_age_a1.infinity, "C12 nonce_agg: both sums start from the point at infinity");
-    __CPROVER_assert(!g_age_b0.infinity && fval(&g_age_b0.x) == le256(&arr[0]->data[4]) && fval(&g_age_b0.y) == le256(&arr[0]->data[36]) && !g_age_b1.infinity && fval(&g_age_b1.x) == le256(&arr[0]->data[68]) && fval(&g_age_b1.y) == le256(&arr[0]->data[100]),
+    __CPROVER_assert((!g_age_b0.infinity && cval4(&g_age_b0.x) == cval(&pts0[0].x) && cval4(&g_age_b0.y) == cval(&pts0[0].y) && !g_age_b1.infinity && cval4(&g_age_b1.x) == cval(&pts0[1].x) && cval4(&g_age_b1.y) == cval(&pts0[1].y)) ||
+                     (!g_age_b1.infinity && cval4(&g_age_b1.x) == cval(&pts0[0].x) && cval4(&g_age_b1.y) == cval(&pts0[0].y) && !g_age_b0.infinity && cval4(&g_age_b0.x) == cval(&pts0[1].x) && cval4(&g_age_b0.y) == cval(&pts0[1].y)),
                      "C12 nonce_agg: first nonce's components go to their own sums");
     if (n == 1) __CPROVER_assert(GEJ_EQ(g_sa_a0, g_age_r0) && GEJ_EQ(g_sa_a1, g_age_r1), "C12 nonce_agg: n = 1: the converted points are the two sums");
-    __CPROVER_assert(an.data[0] == 0xa8 && an.data[1] == 0xb7 && an.data[2] == 0xe4 && an.data[3] == 0x67, "C12 nonce_agg: result carries its magic");
-    if (g_sa_r0.infinity) __CPROVER_assert(an.data[4 + g_k] == 0, "C12 nonce_agg: first sum at infinity is encoded as zero bytes");
-    else __CPROVER_assert(le256(&an.data[4]) == modp(fval(&g_sa_r0.x)) && le256(&an.data[36]) == modp(fval(&g_sa_r0.y)), "C12 nonce_agg: first component stored canonically");
-    if (g_sa_r1.infinity) __CPROVER_assert(an.data[68 + g_k] == 0, "C12 nonce_agg: second sum at infinity is encoded as zero bytes");
-    else __CPROVER_assert(le256(&an.data[68]) == modp(fval(&g_sa_r1.x)) && le256(&an.data[100]) == modp(fval(&g_sa_r1.y)), "C12 nonce_agg: second component stored canonically");
+    /* (the conversion oracle may hand out the non-point (0,0), whose encoding coincides with infinity; no algebraic fact is stated to exclude it) */
+    if (g_sa_r0.infinity || cval4(&g_sa_r0.x) != 0 || cval4(&g_sa_r0.y) != 0) __CPROVER_assert(out[0].infinity == g_sa_r0.infinity && (g_sa_r0.infinity || (cval(&out[0].x) == cval4(&g_sa_r0.x) && cval(&out[0].y) == cval4(&g_sa_r0.y))), "C12 nonce_agg: first component of the result is the first sum; infinity is encoded as infinity");
+    if (g_sa_r1.infinity || cval4(&g_sa_r1.x) != 0 || cval4(&g_sa_r1.y) != 0) __CPROVER_assert(out[1].infinity == g_sa_r1.infinity && (g_sa_r1.infinity || (cval(&out[1].x) == cval4(&g_sa_r1.x) && cval(&out[1].y) == cval4(&g_sa_r1.y))), "C12 nonce_agg: second component of the result is the second sum; infinity is encoded as infinity");
     if (n == 2 && g_sa_r0.infinity && !g_sa_r1.infinity) REACH("nonce_agg first component cancels to infinity");
     if (n == 1) REACH("nonce_agg single nonce");
 #endif
